@@ -29,6 +29,8 @@ import (
 var (
 	verifDir = envOr("VERIF_DIR", "/verif")
 	repoDir  = envOr("VERIF_REPO", "/repo")
+	// outDir receives work files, replays and evidence (seeded-change runs set it to a scratch directory)
+	outDir = envOr("VERIF_OUT", verifDir)
 )
 
 func envOr(k, d string) string {
@@ -313,10 +315,10 @@ func runProperty(id, tier, onlyHarness, onlyCases string, nworkers int, noReplay
 			nworkers = 16
 		}
 	}
-	work := filepath.Join(verifDir, "work", id+"-"+tier)
+	work := filepath.Join(outDir, "work", id+"-"+tier)
 	os.RemoveAll(work)
 	os.MkdirAll(work, 0o755)
-	os.MkdirAll(filepath.Join(verifDir, "evidence"), 0o755)
+	os.MkdirAll(filepath.Join(outDir, "evidence"), 0o755)
 	self, _ := os.Executable()
 
 	var results []*harnessResult
@@ -968,7 +970,7 @@ func finish(p *propertySpec, tier string, seed int64, results []*harnessResult, 
 	known := loadKnownFindings(p.ID)
 	var violations []string
 	knownSeen := 0
-	os.MkdirAll(filepath.Join(verifDir, "replays", p.ID), 0o755)
+	os.MkdirAll(filepath.Join(outDir, "replays", p.ID), 0o755)
 	for i, c := range allCex {
 		if !reproduced[i] {
 			continue
@@ -988,7 +990,7 @@ func finish(p *propertySpec, tier string, seed int64, results []*harnessResult, 
 		if matched {
 			continue
 		}
-		path := filepath.Join(verifDir, "replays", p.ID, sanitize(sig)+".json")
+		path := filepath.Join(outDir, "replays", p.ID, sanitize(sig)+".json")
 		rf := map[string]interface{}{"property": p.ID, "harness": c.Harness, "case": c.Case, "signature": sig,
 			"kind": c.Cex.Kind, "label": c.Cex.Label, "msg": c.Cex.Msg, "site": c.Cex.Site, "assignment": c.Cex.Assignment, "decisions": c.Cex.Decisions, "paths_with_this_signature": c.Count}
 		b, _ := json.MarshalIndent(rf, "", " ")
@@ -1080,7 +1082,7 @@ func finish(p *propertySpec, tier string, seed int64, results []*harnessResult, 
 		},
 	}
 	b, _ := json.MarshalIndent(ev, "", " ")
-	os.WriteFile(filepath.Join(verifDir, "evidence", p.ID+".json"), b, 0o644)
+	os.WriteFile(filepath.Join(outDir, "evidence", p.ID+".json"), b, 0o644)
 
 	fmt.Printf("SUMMARY property=%s tier=%s paths=%d forks=%d obligations=%d discharged=%d queries=%d solver_s=%.1f validated=%d cex=%d reproduced=%d known=%d wall_s=%.1f\n",
 		p.ID, tier, tot.paths, tot.forks, tot.obligations, tot.discharged, tot.queries, tot.solverS, validated, cexFound, cexRepro, knownSeen, time.Since(t0).Seconds())
